@@ -196,6 +196,10 @@ func genPut(w *World) sdk.Msg {
 		} else if i > 0 && av != nil {
 			av = truncTo6(new(big.Rat).Quo(av, big.NewRat(3, 1)))
 		}
+		if len(w.phBatches) > 0 && !w.inBranch && w.intn("pbatch?", 5) == 4 {
+			d = pickOf(w, "pbatch", w.phBatches) // a batch that was only ever issued inside a discarded branch
+			w.Flags["phantom-id-used"] = true
+		}
 		credits = append(credits, &baskettypes.BasketCredit{BatchDenom: d, Amount: w.Amount("amt", av)})
 	}
 	return &baskettypes.MsgPut{Owner: w.AddrStr("ostr", owner), BasketDenom: denom, Credits: credits}
